@@ -644,6 +644,8 @@ def fc_text(fc):
             b += 'priority=%d\n' % sec['priority']
         if sec['env'] is not None:
             b += 'environment=%s\n' % fmt(sec['env'])
+        if sec.get('serverurl') is not None:
+            b += 'serverurl=%s\n' % sec['serverurl']
         if sec['kind'] == 'eventlistener':
             b += 'events=TICK_5\n'
         if sec['kind'] == 'fcgi':
@@ -653,7 +655,99 @@ def fc_text(fc):
         blocks.append('[group:%s]\nprograms=%s\n' % (fc['group']['name'], ','.join(fc['group']['programs'])))
     pos = fc.get('sup_pos', 0) % (len(blocks) + 1)
     blocks.insert(pos, sup)
-    return '\n'.join(blocks)
+    # server sections: in file order (fc_servers), each placed before the block with index 'at' of the blocks so far
+    out = []
+    srv = fc_servers(fc)
+    for i, b in enumerate(blocks + [None]):
+        for sv in srv:
+            if min(sv.get('at', 0), len(blocks)) == i:
+                out.append(srv_text(sv))
+        if b is not None:
+            out.append(b)
+    return '\n'.join(out)
+
+
+def fc_servers(fc):
+    """the server sections of the file in FILE order"""
+    srv = fc.get('servers') or []
+    return [sv for _, _, sv in sorted((sv.get('at', 0), i, sv) for i, sv in enumerate(srv))] if srv else []
+
+
+def srv_text(sv):
+    head = ('inet_http_server' if sv['kind'] == 'inet' else 'unix_http_server') + (':' + sv['name'] if sv.get('name') else '')
+    b = '[%s]\n' % head
+    b += ('port=%s\n' % sv['port']) if sv['kind'] == 'inet' else ('file=%s\n' % sv['file'])
+    if sv.get('auth'):
+        b += 'username=u\npassword=p\n'
+    return b
+
+
+SURL = 'SUPERVISOR_SERVER_URL'
+
+
+def fc_server_facts(fc):
+    """what the FILE says about supervisord's HTTP servers, in file order (independent of options.py):
+    unix = socket paths (as absolute normal paths: the same file as written), inet = (host, port) with host '' for every interface"""
+    unix, inet, tokens = [], [], []
+    for sv in fc_servers(fc):
+        if sv['kind'] == 'unix':
+            path = os.path.normpath(os.path.abspath(os.path.expanduser(sv['file'].strip())))
+            unix.append(path)
+            tokens.append('u:' + hs(path))
+        else:
+            v = sv['port'].strip()
+            host, _, port = v.rpartition(':')
+            raw_host = host if ':' in v else None
+            host = host.lower()
+            inet.append(('' if host in ('', '*') else host, int(port)))
+            tokens.append('i:%s:%d' % (opt_s(raw_host), int(port)))
+    return {'unix': unix, 'inet': inet, 'token': ','.join(tokens) or '-'}
+
+
+def server_url_monitor(ctx, fc, facts, sec, env, rec, inp):
+    """docs/configuration.rst `serverurl`: the program's own value, or (unset / AUTO) a url supervisord constructs, "giving
+    preference to a server that listens on UNIX domain sockets over one that listens on an internet socket".  Checked on the
+    environment handed to execve.  -> the url the child may be told (for the generic environment monitor)"""
+    ex = [e for e in rec.log if e[0] == 'execve']
+    raw = sec.get('serverurl')
+    raw = raw.strip() if raw is not None else None
+    explicit = raw is not None and raw.upper() != 'AUTO'
+    unix_ok = ['unix://' + p for p in facts['unix']]
+    inet_ok = ['http://%s:%d' % (h or 'localhost', p) for h, p in facts['inet']]
+    want = unix_ok or inet_ok
+    strict = raw if explicit else (unix_ok[0] if unix_ok else inet_ok[-1] if inet_ok else None)
+    if not ex:
+        return strict
+    got = ex[0][1][2].get(SURL)
+    inherited = fc['osenv'].get(SURL)
+    if SURL in env or (explicit and raw == ''):
+        return strict          # the configured environment= overrides it / `serverurl=` with nothing: the documentation is silent
+    def same(a, b):
+        return a is not None and (a == b or (b.startswith('http://') and a.lower() == b.lower()))
+    def bad(sub, what):
+        ctx.violation('server-url-not-the-documented-one:' + sub,
+                      'program %r (serverurl=%r), servers of the file: unix %r inet %r: the command is exec\'ed with %s=%r; %s'
+                      % (sec['name'], raw, facts['unix'], facts['inet'], SURL, got, what), inp)
+    if explicit:
+        if got != raw:
+            bad('explicit-ignored', 'promised the program\'s own serverurl %r' % raw)
+        return strict
+    if not want:
+        if got != inherited:
+            bad('url-without-server', 'no server is configured: promised supervisord\'s own environment (%r)' % inherited)
+        return strict
+    for w in want:
+        if same(got, w):
+            return w
+    if got is None or got == inherited:
+        bad('missing', 'promised %r' % want[0])
+    elif unix_ok and any(same(got, w) for w in inet_ok):
+        bad('inet-preferred-over-unix', 'promised the UNIX domain socket server %r' % unix_ok[0])
+    elif got.strip().upper() == 'AUTO':
+        bad('auto-taken-literally', 'promised %r' % want[0])
+    else:
+        bad('not-a-configured-server', 'promised one of %r' % want)
+    return strict
 
 
 def fc_promised(fc):
@@ -672,7 +766,7 @@ def fc_promised(fc):
     return out
 
 
-def file_case(ctx, fc, cases, impls, mcases, mimpls):
+def file_case(ctx, fc, cases, impls, mcases, mimpls, ucases=None, uimpls=None):
     from supervisor.options import ServerOptions
     from supervisor.tests.base import DummyLogger
     import io
@@ -684,6 +778,13 @@ def file_case(ctx, fc, cases, impls, mcases, mimpls):
     promised = fc_promised(fc)
     order, parsed = [], []
     seen = set()
+    # with a 'servers' dimension options.serverurl is what the REAL realize() made of the file's server sections; without it
+    # (earlier corpus entries) it is imposed
+    facts = fc_server_facts(fc) if fc.get('servers') is not None else None
+    if facts is not None:
+        ctx.count('file-case:servers:%s' % ('+'.join(sv['kind'] for sv in fc_servers(fc)) or 'none'))
+        real_servers = ','.join(('u:' + hs(sc['file'])) if 'file' in sc else 'i:%s:%d' % (hs(sc['host']), sc['port'])
+                                for sc in o.server_configs) or '-'
     for g in o.process_group_configs:
         for pc in g.process_configs:
             key = (g.name, pc.name)
@@ -697,14 +798,32 @@ def file_case(ctx, fc, cases, impls, mcases, mimpls):
             c = base_cfg()
             c.update(fcgi=1 if sec['kind'] == 'fcgi' else 0, name=pc.name, group=g.name, env=env, osenv=dict(fc['osenv']),
                      osurl=fc['osurl'], surl=None, file='/bin/prog-' + sec['name'], argv=['/bin/prog-' + sec['name']])
-            o.minfds, o.serverurl = c['minfds'], c['osurl']
+            o.minfds = c['minfds']
+            if facts is None:
+                o.serverurl = c['osurl']
             proc = pc.make_process(_Group(g.name))
             rec = Recorder({})
             rec, escaped = spawn_proc(proc, c, rec)
+            actual = c
+            if facts is not None:
+                raw = sec.get('serverurl')
+                raw = raw.strip() if raw is not None else None
+                told = server_url_monitor(ctx, fc, facts, sec, env, rec, inp)
+                if raw is not None and raw.upper() != 'AUTO':
+                    c.update(surl=raw, osurl=None)
+                else:
+                    c.update(surl=None, osurl=told)
+                actual = dict(c, surl=pc.serverurl, osurl=o.serverurl)     # the case the model's script of the child is run on
+                ctx.count('file-case:serverurl:%s' % ('unset' if raw is None else 'AUTO' if raw.upper() == 'AUTO' else 'empty' if raw == '' else 'explicit'))
+                ex = [e for e in rec.log if e[0] == 'execve']
+                if ucases is not None:
+                    ucases.append((case_line(actual), ['surl %s %s' % (opt_s(raw), facts['token'])]))
+                    uimpls.append(['servers %s url %s child %s told %s' % (real_servers, opt_s(o.serverurl), opt_s(pc.serverurl),
+                                                                          opt_s(ex[0][1][2].get(SURL)) if ex else 'N')])
             monitor(ctx, c, {}, rec, escaped, inp)
             ctx.count('file-case:spawn:' + sec['kind'])
             ctx.case_done(('file', text, key), True)
-            cases.append((c, {})); impls.append(impl_line(rec))
+            cases.append((actual, {})); impls.append(impl_line(rec))
     missing = sorted(set(promised) - seen)
     if missing:
         ctx.violation('configured-process-missing', 'the file configures %r, the parsed configuration has no such process' % (missing,), {'file_case': fc})
@@ -714,9 +833,73 @@ def file_case(ctx, fc, cases, impls, mcases, mimpls):
     mimpls.append(['env ' + ' '.join(env_s(dict(sorted(e.items()))) for e in parsed)])
 
 
-def fc_make(progs, supenv, group=None, sup_pos=0, osenv=None, osurl='unix:///tmp/s.sock'):
-    return {'supenv': supenv, 'sections': progs, 'group': group, 'sup_pos': sup_pos, 'osenv': osenv if osenv is not None else {'PATH': '/bin', 'HOME': '/root'},
-            'osurl': osurl}
+def fc_make(progs, supenv, group=None, sup_pos=0, osenv=None, osurl='unix:///tmp/s.sock', servers=None):
+    fc = {'supenv': supenv, 'sections': progs, 'group': group, 'sup_pos': sup_pos, 'osenv': osenv if osenv is not None else {'PATH': '/bin', 'HOME': '/root'},
+          'osurl': osurl}
+    if servers is not None:
+        fc['servers'] = servers
+    return fc
+
+
+# ---- server sections x per-program serverurl ---------------------------------------------------------------------------
+def _u(file, name=None, at=0, auth=False):
+    return {'kind': 'unix', 'file': file, 'name': name, 'at': at, 'auth': auth}
+
+
+def _i(port, name=None, at=0, auth=False):
+    return {'kind': 'inet', 'port': port, 'name': name, 'at': at, 'auth': auth}
+
+
+UNIX_FILES = ['/tmp/c18/supervisor.sock', '/var/run//c18/../sup2.sock', 'run/rel.sock', '~/sv.sock', '/tmp/c18/s.sock  ', '/tmp/c18/d\u00e9.sock']
+INET_PORTS = ['127.0.0.1:49001', '*:9001', '9002', ':9003', 'Example.COM:8080', 'localhost:9001', '[::1]:9004', '0.0.0.0:65535']
+SERVERURLS = [None, 'AUTO', 'http://elsewhere:1234']
+SERVERURLS_MORE = [None, None, 'AUTO', 'AUTO', 'auto', ' Auto', 'http://elsewhere:1234', 'unix:///else/where.sock', 'http://u:p@h:9001', '']
+
+
+def fc_server_combos():
+    U, I = UNIX_FILES, INET_PORTS
+    combos = [[], [_u(U[0])], [_i(I[0], auth=True)],
+              [_i(I[0], auth=True), _u(U[0])], [_u(U[0]), _i(I[0], auth=True)],          # both, either order in the file
+              [_i(I[1]), _u(U[1], at=9)], [_u(U[2]), _i(I[2], at=9)], [_u(U[3], at=9), _i(I[3], at=9)], [_i(I[4], at=1), _u(U[4], at=2)]]
+    combos += [[_i(p)] for p in I[1:]] + [[_u(f)] for f in U[1:]]
+    combos += [[_u(U[0]), _u(U[1], name='second')], [_u(U[1], name='second'), _u(U[0], at=9)],
+               [_i(I[0]), _i(I[1], name='all')], [_i(I[1], name='all'), _i(I[0], at=2)],
+               [_i(I[0]), _u(U[0]), _i(I[4], name='pub', at=1), _u(U[2], name='b', at=9)],
+               [_u(U[3], name='x'), _i(I[2], at=1), _u(U[0], at=1), _i(I[6], name='six', at=9)]]
+    return combos
+
+
+def fc_server_scope(ctx):
+    """server sections (none / unix / inet / both in either file order / several of a family; host and path forms) x three programs with
+    serverurl unset, AUTO, explicit x program kinds rotated x position of the server sections among the others"""
+    kinds = ['program', 'eventlistener', 'fcgi']
+    for ci, combo in enumerate(fc_server_combos()):
+        for rot in range(3):
+            if ctx.tier == 'quick' and ci >= 9 and rot != ci % 3:
+                continue
+            progs = [{'kind': kinds[(i + rot) % 3], 'name': n, 'numprocs': 2 if (i + rot + ci) % 5 == 0 else 1, 'priority': None,
+                      'env': [('OWN_' + n.upper(), '1')] if (i + ci) % 3 == 0 else None, 'serverurl': SERVERURLS[(i + rot) % 3]}
+                     for i, n in enumerate(['unset', 'auto', 'explicit'])]
+            for p, n in zip(progs, ['unset', 'auto', 'explicit']):
+                p['serverurl'] = {'unset': None, 'auto': 'AUTO', 'explicit': 'http://elsewhere:1234'}[n]
+            osenv = [{'PATH': '/bin', 'HOME': '/root'}, {}, {'PATH': '/bin', 'SUPERVISOR_SERVER_URL': 'http://stale:1', 'SUPERVISOR_ENABLED': '0'}][(ci + rot) % 3]
+            yield fc_make(progs, [('SUPKEY', 'sup')] if ci % 2 else None, sup_pos=ci + rot, osenv=osenv,
+                          servers=[dict(sv, at=sv['at'] + rot) for sv in combo])
+
+
+def fc_random_servers(rng):
+    n = rng.choice([0, 1, 1, 2, 2, 2, 3, 4])
+    out, at, names = [], 0, {'unix': 0, 'inet': 0}
+    for _ in range(n):
+        kind = rng.choice(['unix', 'inet'])
+        at += rng.choice([0, 0, 1, 2])
+        name = None if names[kind] == 0 and rng.random() < 0.8 else '%s%d' % (kind[0], names[kind] + 1)
+        names[kind] += 1
+        if kind == 'unix':
+            out.append(_u(rng.choice(UNIX_FILES), name, at, rng.random() < 0.2))
+        else:
+            out.append(_i(rng.choice(INET_PORTS + ['h%d.example:%d' % (rng.randrange(9), rng.randrange(1, 65536))]), name, at, rng.random() < 0.5))
+    return out
 
 
 def fc_small_scope(ctx):
@@ -768,7 +951,17 @@ def fc_random(rng):
     if len(plain) >= 2 and rng.random() < 0.3:
         group = {'name': 'grp', 'programs': rng.sample(plain, 2)}
     osenv = rng.choice([{}, {'PATH': '/bin', 'HOME': '/root'}, {'SUPERVISOR_ENABLED': '0', 'SHARED': 'os', 'A': 'os'}])
-    return fc_make(progs, supenv, group, sup_pos=rng.randrange(6), osenv=osenv, osurl=rng.choice([None, 'unix:///tmp/s.sock', 'http://h:9001']))
+    fc = fc_make(progs, supenv, group, sup_pos=rng.randrange(6), osenv=osenv, osurl=rng.choice([None, 'unix:///tmp/s.sock', 'http://h:9001']))
+    if rng.random() < 0.6:
+        # options.serverurl from the file's own server sections through the real realize(); serverurl= per program
+        fc['servers'] = fc_random_servers(rng)
+        for p in progs:
+            p['serverurl'] = rng.choice(SERVERURLS_MORE)
+        if rng.random() < 0.2:
+            fc['osenv'] = dict(fc['osenv'], SUPERVISOR_SERVER_URL='http://stale:1')
+        if rng.random() < 0.1:
+            rng.choice(progs)['env'] = [('SUPERVISOR_SERVER_URL', 'http://from.environment:7')]
+    return fc
 
 
 FC_CORPUS = [
@@ -783,19 +976,37 @@ FC_CORPUS = [
 ]
 
 
+def _c18_8(servers):
+    return fc_make([{'kind': 'program', 'name': 'unset', 'numprocs': 1, 'priority': None, 'env': None, 'serverurl': None},
+                    {'kind': 'program', 'name': 'auto', 'numprocs': 1, 'priority': None, 'env': None, 'serverurl': 'AUTO'},
+                    {'kind': 'program', 'name': 'explicit', 'numprocs': 1, 'priority': None, 'env': None, 'serverurl': 'http://elsewhere:1234'}],
+                   None, osenv={'PATH': '/bin'}, servers=servers)
+
+
+# seeded change C18-8 (the demo's five files): unix only, inet only, no server, inet + unix, unix + inet; programs unset / AUTO / explicit
+FC_CORPUS += [_c18_8([_u('/tmp/c18seed8/supervisor.sock')]), _c18_8([_i('127.0.0.1:49001', auth=True)]), _c18_8([]),
+              _c18_8([_i('127.0.0.1:49001', auth=True), _u('/tmp/c18seed8/supervisor.sock')]),
+              _c18_8([_u('/tmp/c18seed8/supervisor.sock'), _i('127.0.0.1:49001', auth=True)])]
+
+
 def file_cases(ctx):
     """the configured environment of every program of a file with several programs reaches ITS child and no other"""
     from supervisor import events
-    cases, impls, mcases, mimpls = [], [], [], []
-    todo = list(FC_CORPUS) + list(fc_small_scope(ctx))
-    for _ in range(ctx.n(40, 600)):
+    cases, impls, mcases, mimpls, ucases, uimpls = [], [], [], [], [], []
+    todo = list(FC_CORPUS) + list(fc_server_scope(ctx)) + list(fc_small_scope(ctx))
+    for _ in range(ctx.n(60, 800)):
         todo.append(fc_random(ctx.rng))
     for fc in todo:
-        file_case(ctx, fc, cases, impls, mcases, mimpls)
+        file_case(ctx, fc, cases, impls, mcases, mimpls, ucases, uimpls)
         if len(cases) > 3000:
             flush(ctx, cases, impls)
     flush(ctx, cases, impls)
     ctx.correspond('child-merge-file', [('case child ' + c[len('case child '):], ops) for c, ops in mcases], mimpls)
+    # options.serverurl / config.serverurl / the variable in the child's environment: the real realize() + _spawn_as_child against
+    # chooseServerUrl / configuredServerUrl / childEnv of the model, for every program of every file with server sections
+    if ucases:
+        ctx.sample({'case': ucases[-1][0][:80] + ' ...', 'op': ucases[-1][1][0], 'impl': uimpls[-1][0]})
+    ctx.correspond('child-serverurl', ucases, uimpls)
     events.clear()
 
 
@@ -854,8 +1065,10 @@ def replay(ctx, data):
         fc['supenv'] = [tuple(x) for x in fc['supenv']] if fc['supenv'] else None
         for sec in fc['sections']:
             sec['env'] = [tuple(x) for x in sec['env']] if sec['env'] is not None else None
-        file_case(ctx, fc, cases, impls, mcases, mimpls)
+        ucases, uimpls = [], []
+        file_case(ctx, fc, cases, impls, mcases, mimpls, ucases, uimpls)
         flush(ctx, cases, impls)
+        ctx.correspond('child-serverurl', ucases, uimpls)
         return
     if 'config' not in inp:
         return
